@@ -250,12 +250,30 @@ def _deprecated_filter(src: int, include: int, dep: int, via_type: bool) -> bool
     return result(ok, True)
 
 
+def underscore_fields(cfg):
+    """ordinary fields named _x, _, x_, _Type: untouched by the switch, at the root and below; the meta-fields next to them are hidden"""
+    with untraced():
+        sub = ObjectType("_Sub", [Field("_id", Int), Field("_", Int), Field("id_", Int)])
+        q = ObjectType("Query", [Field("_private", Int), Field("_", Int), Field("_sub", sub), Field("tail_", Int)])
+        schema = Schema(q)
+        root = {"_private": 1, "_": 2, "tail_": 3, "_sub": {"_id": 4, "_": 5, "id_": 6}}
+        query = "{ _private _ tail_ __typename _sub { _id _ id_ __typename } }"
+        kw = dict(root=root, executor_cls=Executor) if cfg == 0 else dict(root=root)
+        on = process_graphql_query(schema, query, **kw).response()
+        off = process_graphql_query(schema, query, disable_introspection=True, **kw).response()
+        plain = {"_private": 1, "_": 2, "tail_": 3, "_sub": {"_id": 4, "_": 5, "id_": 6}}
+        with_meta = {"_private": 1, "_": 2, "tail_": 3, "__typename": "Query", "_sub": {"_id": 4, "_": 5, "id_": 6, "__typename": "_Sub"}}
+        return json.loads(json.dumps(on.get("data"))) == with_meta and json.loads(json.dumps(off.get("data"))) == plain and not on.get("errors") and not off.get("errors")
+
+
 def _disabled(src: int, q: int, cfg: int = 0) -> bool:
     """
-    pre: 0 <= src <= 1 and 0 <= q < 7 and 0 <= cfg <= 1
+    pre: 0 <= src <= 1 and 0 <= q < 8 and 0 <= cfg <= 1
     post: _
     """
-    SRC, Q, C = concrete_int(src, 0, 1), concrete_int(q, 0, 6), concrete_int(cfg, 0, 1)
+    SRC, Q, C = concrete_int(src, 0, 1), concrete_int(q, 0, 7), concrete_int(cfg, 0, 1)
+    if Q == 7:
+        return result(underscore_fields(C), True)
     with untraced():
         schema = make_schema(SRC, 0, 0)
         field = "c" if SRC == 1 else "s(x: [\"a\"])"
@@ -312,7 +330,7 @@ CONDITIONS = [
     Cond(name="deprecated_filter", fn=_deprecated_filter, quick=60, thorough=60, bound="includeDeprecated absent / false / true / through a variable (false, true, omitted) on fields and enumValues x deprecation pattern (none, some, EVERY member of an object type, an interface and an enum) "
                "x via __schema.types or __type(name:) for every type, 2 schemas: member lists (name, isDeprecated, deprecationReason) equal the reference, null only for kinds without such members",
          symbolic={"src,include,dep,via_type": "choice"}, witness={"src": 0, "include": 1, "dep": 2, "via_type": False}),
-    Cond(name="disabled", fn=_disabled, quick=60, thorough=60, bound="disable_introspection on/off x 7 queries (__schema, __type, __typename at the root, none, __typename through an inline fragment, meta-fields through a named fragment, "
+    Cond(name="disabled", fn=_disabled, quick=60, thorough=60, bound="disable_introspection on/off x 8 queries (ordinary fields whose names start or end with an underscore, __schema, __type, __typename at the root, none, __typename through an inline fragment, meta-fields through a named fragment, "
                "__typename on a nested object) x 2 schemas x 2 executors: meta-fields hidden at every depth, ordinary fields unaffected",
          symbolic={"src,q,cfg": "choice"}, witness={"src": 0, "q": 6, "cfg": 0}),
     Cond(
